@@ -442,3 +442,76 @@ var nestedMakers = []func(a int) any{
 		return &N07{Kids: []*N07A{{V: a, S: "s7"}, {V: a + 7}}, ByName: map[string]*N07B{"k": {V7: a}, "m": {V7: 7}}, Arr: [2]*N07C{c, nil}, N: a}
 	},
 }
+
+// Struct types behind TWO container levels ([][]*T, map[string][]T): see findings/C08.md #2.
+
+type D00L struct {
+	V int
+}
+
+type D00M struct {
+	W0 int
+}
+
+type D00 struct {
+	Grid [][]*D00L
+	M    map[string][]D00M
+	N    int
+}
+
+type D01L struct {
+	V int
+}
+
+type D01M struct {
+	W1 int
+}
+
+type D01 struct {
+	Grid [][]*D01L
+	M    map[string][]D01M
+	N    int
+}
+
+type D02L struct {
+	V int
+}
+
+type D02M struct {
+	W2 int
+}
+
+type D02 struct {
+	Grid [][]*D02L
+	M    map[string][]D02M
+	N    int
+}
+
+type D03L struct {
+	V int
+}
+
+type D03M struct {
+	W3 int
+}
+
+type D03 struct {
+	Grid [][]*D03L
+	M    map[string][]D03M
+	N    int
+}
+
+var nested2Makers = []func(a int) any{
+	func(a int) any {
+		return &D00{Grid: [][]*D00L{{{V: a}}, {{V: a + 1}, {V: 0}}}, M: map[string][]D00M{"k": {{W0: a}}}, N: a}
+	},
+	func(a int) any {
+		return &D01{Grid: [][]*D01L{{{V: a}}, {{V: a + 1}, {V: 1}}}, M: map[string][]D01M{"k": {{W1: a}}}, N: a}
+	},
+	func(a int) any {
+		return &D02{Grid: [][]*D02L{{{V: a}}, {{V: a + 1}, {V: 2}}}, M: map[string][]D02M{"k": {{W2: a}}}, N: a}
+	},
+	func(a int) any {
+		return &D03{Grid: [][]*D03L{{{V: a}}, {{V: a + 1}, {V: 3}}}, M: map[string][]D03M{"k": {{W3: a}}}, N: a}
+	},
+}
